@@ -9,6 +9,9 @@ interleavings at access granularity). Threads are advanced by re-execution with 
 Verdicts: (i) data race: a reachable scheduling point where both threads' next accesses hit the same location, at least one
 writes, and neither is protected (atomic / lock / thread-local); (ii) outcome: for every initial state the priorities the two
 threads obtained are what SOME sequential order of the same calls produces (no draw lost or duplicated).
+Modelled synchronisation: thread_local!/Cell (thread-private), std::sync::Mutex (lock = blocking acquire, guard drop = release,
+accesses through the guard are protected by that lock), scalar std::sync::atomic types (load/store/swap/fetch_add/fetch_sub/
+compare_exchange are single indivisible accesses; all orderings are explored as sequentially consistent).
 Anything outside the modelled synchronisation constructs => Unsupported (inconclusive)."""
 import re, itertools, time, z3
 from .core import Program, Machine, Unsupported, Panic, I, Ref, Enum, Opaque, Arr, BITS, mk_int, mk_bool, copyval
@@ -27,10 +30,39 @@ class SharedStruct(list):
         self.name, self.ctl = name, ctl
 
     def __getitem__(self, k):
-        return self.ctl.access('R', (self.name, k), lambda: list.__getitem__(self, k), None)
+        return self.ctl.access('R', (self.name, k), lambda: list.__getitem__(self, k))
 
     def __setitem__(self, k, v):
-        return self.ctl.access('W', (self.name, k), None, lambda: list.__setitem__(self, k, v))
+        return self.ctl.access('W', (self.name, k), lambda: list.__setitem__(self, k, v))
+
+    def __iter__(self):
+        return iter([self[k] for k in range(len(self))])
+
+    def raw(self, k):
+        return list.__getitem__(self, k)
+
+    def raw_set(self, k, v):
+        list.__setitem__(self, k, v)
+
+
+class SharedCell(list):
+    """the place `*guard` / `*ptr` of a shared struct: a whole-struct assignment is a write of every field"""
+    def __setitem__(self, k, v):
+        tgt = list.__getitem__(self, k)
+        if not isinstance(v, list) or len(v) != len(tgt):
+            raise Unsupported('whole-struct store of a different shape into shared memory')
+        for i, x in enumerate(v):
+            tgt[i] = x
+
+
+class MutexObj:
+    def __init__(self, name, data):
+        self.name, self.data, self.held = name, data, None
+
+
+class AtomicObj:
+    def __init__(self, name, cell, ty):
+        self.name, self.cell, self.ty = name, cell, ty
 
 
 class ThreadCtl:
@@ -42,20 +74,27 @@ class ThreadCtl:
         self.mode = 'peek'      # 'peek': stop before the next new access; 'step': perform exactly one new access, then stop
         self.done = False
         self.results = None
-        self.protected = 0      # >0 while inside a lock / atomic section
+        self.held = set()       # locks held at this point of the (re-)execution
+        self.atomic = False     # the access being performed is an atomic operation
 
-    def access(self, kind, loc, reader, writer):
+    def protection(self):
+        return frozenset(self.held) | (frozenset(['<atomic>']) if self.atomic else frozenset())
+
+    def access(self, kind, loc, fn):
+        """kind: R read, W write, RW indivisible read-modify-write, L lock acquire, U lock release; fn performs it on the world"""
         i = self.pos
         self.pos += 1
         if i < len(self.log):
-            return self.log[i][2] if kind == 'R' else None       # replay
+            return self.log[i][2]       # replay
         if self.mode == 'peek':
-            raise Yield(kind, loc, self.protected > 0)
+            raise Yield(kind, loc, self.protection())
         if self.mode == 'step':
-            val = reader() if kind == 'R' else writer()
+            val = fn()
+            if kind == 'W':
+                val = None
             self.log.append((kind, loc, val))
             self.mode = 'peek'
-            return val if kind == 'R' else None
+            return val
         raise Unsupported('thread control mode')
 
 
@@ -68,6 +107,9 @@ class ConcProgram(Program):
         self.statics = {}          # alloc id -> static name
         for m in re.finditer(r'^(alloc\d+) \(static: (\w+), size: (\d+), align: \d+\) \{\n((?:    .*\n)*?)\}', treap_text, re.M):
             self.statics[m.group(1)] = (m.group(2), int(m.group(3)), m.group(4))
+        self.static_ty = {}        # static name -> declared type
+        for m in re.finditer(r'^static (?:mut )?(?:[\w:]+::)?(\w+): (.+) = \{$', treap_text, re.M):
+            self.static_ty[m.group(1)] = m.group(2)
         self.cur = None            # ThreadCtl of the running thread
         self.shared = {}           # static name -> SharedStruct (one world per schedule)
         self.tls = {}              # (tid, key) -> thread-local value
@@ -91,6 +133,85 @@ class ConcProgram(Program):
                 raise Unsupported('closure passed to LocalKey::with not found')
             cell = self.tls[slot][0]
             return m.run(clo[0], [a[1], Ref([cell], 0)], fr.subst)
+
+        # ---- std::sync::Mutex
+        @M(r'^(?:std::sync::)?Mutex::<.*>::lock$', regex=True)
+        def _(m, fr, a, mm):
+            mx = a[0].load() if isinstance(a[0], Ref) else a[0]
+            if not isinstance(mx, MutexObj):
+                raise Unsupported('Mutex::lock on something that is not a modelled static Mutex')
+            tid = self.cur.tid
+
+            def acquire():
+                if mx.held is not None:
+                    raise Unsupported('acquire of a held mutex (scheduler should have blocked the thread)')
+                mx.held = tid
+            self.cur.access('L', (mx.name, 'lock'), acquire)
+            self.cur.held.add(mx.name)
+            return Enum('Ok', [Opaque('guard', mx)])
+
+        @M(r"^<(?:std::sync::)?MutexGuard<'_, .*> as Deref(Mut)?>::deref(_mut)?$", regex=True)
+        def _(m, fr, a, mm):
+            g = a[0].load() if isinstance(a[0], Ref) else a[0]
+            if not (isinstance(g, Opaque) and g.tag == 'guard'):
+                raise Unsupported('deref of an unknown guard')
+            return Ref(SharedCell([g.payload.data]), 0)
+
+        def release(g):
+            mx = g.payload
+            tid = self.cur.tid
+
+            def rel():
+                if mx.held != tid:
+                    raise Unsupported('release of a mutex the thread does not hold')
+                mx.held = None
+            self.cur.access('U', (mx.name, 'lock'), rel)
+            self.cur.held.discard(mx.name)
+
+        def drop_hook(m, fr, v):
+            if isinstance(v, Opaque) and v.tag == 'guard':
+                release(v)
+            elif isinstance(v, Enum) and v.fields and isinstance(v.fields[0], Opaque) and v.fields[0].tag == 'guard':
+                release(v.fields[0])
+        self.drop_hook = drop_hook
+
+        @M(r"^(?:std::mem::)?drop::<(?:std::sync::)?MutexGuard<'_, .*>>$", regex=True)
+        def _(m, fr, a, mm):
+            release(a[0])
+            return []
+
+        # ---- scalar atomics: every operation is one indivisible access (explored as sequentially consistent)
+        @M(r'^(?:std::sync::atomic::)?Atomic(\w+|::<\w+>)::(load|store|swap|fetch_add|fetch_sub|compare_exchange|compare_exchange_weak)$', regex=True)
+        def _(m, fr, a, mm):
+            at = a[0].load() if isinstance(a[0], Ref) else a[0]
+            if not isinstance(at, AtomicObj):
+                raise Unsupported('atomic operation on something that is not a modelled static atomic')
+            op = mm.group(2)
+            cell = at.cell
+            loc = (at.name, 0)
+            self.cur.atomic = True
+            try:
+                if op == 'load':
+                    return self.cur.access('R', loc, lambda: cell.raw(0))
+                if op == 'store':
+                    self.cur.access('W', loc, lambda: cell.raw_set(0, a[1]))
+                    return []
+                if op in ('swap', 'fetch_add', 'fetch_sub'):
+                    def rmw():
+                        old = cell.raw(0)
+                        cell.raw_set(0, a[1] if op == 'swap' else m.binop('Add' if op == 'fetch_add' else 'Sub', old, a[1]))
+                        return old
+                    return self.cur.access('RW', loc, rmw)
+                # compare_exchange(current, new, ..): Ok(old) and the store happen iff old == current
+                def cas():
+                    old = cell.raw(0)
+                    hit = m.branch_bool(m.binop('Eq', old, a[1]))
+                    if hit:
+                        cell.raw_set(0, a[2])
+                    return Enum('Ok' if hit else 'Err', [old])
+                return self.cur.access('RW', loc, cas)
+            finally:
+                self.cur.atomic = False
 
         # ---- the clock is environment: an arbitrary instant each time it is read
         self.clock_reads = 0
@@ -166,7 +287,9 @@ class ConcProgram(Program):
             f = self.find_promoted(fr.fn, s)
             if 'LocalKey' in (f.ret or ''):
                 return Opaque('localkey', 'RNG')
-        mm = re.match(r'^\{(alloc\d+): \*(mut|const) (.*)\}$', s)
+        if re.match(r'^(?:std::sync::atomic::)?Ordering::\w+$', s) or s in ('Relaxed', 'Acquire', 'Release', 'AcqRel', 'SeqCst'):
+            return Opaque('ordering', s)
+        mm = re.match(r'^\{(alloc\d+): (\*mut|\*const|&mut|&) ?(.*)\}$', s)
         if mm:
             if mm.group(1) not in self.statics:
                 raise Unsupported('pointer to unknown allocation ' + s)
@@ -177,13 +300,27 @@ class ConcProgram(Program):
     # ---- a world = fresh shared memory for one schedule
     def new_world(self, ctl_of):
         self.shared = {}
-        for alloc, (name, size, _bytes) in self.statics.items():
-            if size != 8:
-                raise Unsupported('static %s of size %d: layout not modelled' % (name, size))
-            self.shared[name] = SharedStruct([self.init_state], name, self)
+        for alloc, (name, size, bytes_) in self.statics.items():
+            ty = self.static_ty.get(name, '')
+            gen = lambda: SharedStruct([self.init_state], name, self)      # the generator: ONE u64 of state, symbolic
+            mx = re.match(r'^(?:std::sync::)?Mutex<(.*)>$', ty)
+            at = re.match(r'^(?:std::sync::atomic::)?Atomic<?(U64|Usize|U32|I64|Isize|I32|u64|usize|u32|i64|isize|i32)>?$', ty)
+            if mx and 'LinearCongruentialGenerator64<' in mx.group(1) and size == 16:
+                self.shared[name] = MutexObj(name, gen())
+            elif at:
+                ity = at.group(1).lower()
+                hexes = re.findall(r'\b[0-9a-f]{2}\b', ' '.join(l.split('\u2502')[0] for l in bytes_.splitlines()))
+                if len(hexes) != size:
+                    raise Unsupported('static %s: initial bytes not understood' % name)
+                val = int.from_bytes(bytes(int(h, 16) for h in hexes), 'little')
+                self.shared[name] = AtomicObj(name, SharedStruct([I(val, ity)], name, self), ity)
+            elif size == 8 and ('LinearCongruentialGenerator64<' in ty or not ty):
+                self.shared[name] = gen()
+            else:
+                raise Unsupported('static %s of size %d (type %s): layout not modelled' % (name, size, ty or '?'))
 
-    def access(self, kind, loc, reader, writer):
-        return self.cur.access(kind, loc, reader, writer)
+    def access(self, kind, loc, fn):
+        return self.cur.access(kind, loc, fn)
 
 
 def thread_body(P, k):
@@ -202,6 +339,8 @@ def advance(P, ctl, body, mode):
         del P.tls[key]          # thread-private state is rebuilt by the re-execution
     ctl.pos = 0
     ctl.mode = mode
+    ctl.held = set()
+    ctl.atomic = False
     m = Machine(P)
     try:
         res = body(m)
@@ -238,12 +377,18 @@ def explore_schedules(P, k, max_schedules=20000, stop_at_race=False):
                     nxt.append(None)
                 else:
                     nxt.append(r[1:])
-            ready = [i for i, x in enumerate(nxt) if x is not None]
-            if not ready:
+            def blocked(i):
+                kind, loc, _p = nxt[i]
+                return kind == 'L' and P.shared[loc[0]].held not in (None,)
+            waiting = [i for i, x in enumerate(nxt) if x is not None]
+            ready = [i for i in waiting if not blocked(i)]
+            if not waiting:
                 break
-            if len(ready) == 2:
+            if not ready:
+                raise Unsupported('deadlock: every unfinished thread waits for a held mutex')
+            if len(waiting) == 2 and nxt[0][0] not in 'LU' and nxt[1][0] not in 'LU':
                 (k0, l0, p0), (k1, l1, p1) = nxt[0], nxt[1]
-                if l0 == l1 and 'W' in (k0, k1) and not (p0 and p1) and race is None:
+                if l0 == l1 and (k0 != 'R' or k1 != 'R') and not (p0 & p1) and race is None:
                     race = dict(at=len(trace), accesses=[(0, k0, l0), (1, k1, l1)], schedule_prefix=[t for t, _ in trace])
             i = len(trace)
             c = prefix[i] if i < len(prefix) else 0
@@ -273,8 +418,9 @@ def explore_schedules(P, k, max_schedules=20000, stop_at_race=False):
 
 class Free(ThreadCtl):
     """no scheduling: accesses go straight to memory (used for the sequential reference executions)"""
-    def access(self, kind, loc, reader, writer):
-        return reader() if kind == 'R' else writer()
+    def access(self, kind, loc, fn):
+        v = fn()
+        return None if kind == 'W' else v
 
 
 def sequential_results(P, k, order):
